@@ -120,6 +120,9 @@ def _work(args):
                 bad = None
                 if cls.startswith('PANIC'):
                     bad = 'panic: ' + cls[6:300]
+                elif cls.startswith('DIED:DriverTimeout') and sql not in KNOWN_HUGE:
+                    out['retime'].append((fam, sql, int(SLOW_MS + 5000)))       # no answer within the single-statement limit, in the pool: decided alone
+                    continue
                 elif cls.startswith('DIED'):
                     bad = 'the engine process died or hung on this statement: ' + cls
                 elif ms > SLOW_MS:
@@ -193,7 +196,7 @@ def run(rep):
     tasks = tasks[:len(slow_first)] + dtasks + tasks[len(slow_first):]              # the slow statements and families first
     rep.rule = ('(a) every token string of length <= %d over a %d-token SQL alphabet (%d statements); (b) every string of <= %d bytes over 12 hostile bytes, bare and after SELECT; (c) %d mistyped / '
                 'unsupported / boundary statements; (d) %d parametric depth families (nesting, chains, long literals, IN lists, CASE arms, joins, CTEs), every n in 1..min(%d, 400) and every 25th above (quick: plus n = 1000 and 2000 for the five chains that reach the planner); each executed against a '
-                'two-table catalog in the real engine (subprocess, default stacks); oracle: Ok or Err within %d ms (a statement slower than that inside the 12-process pool is re-timed alone before it counts), no panic, the process survives; distinct_nontrivial = distinct statements with a '
+                'two-table catalog in the real engine (subprocess, default stacks); oracle: Ok or Err within %d ms (a statement slower than that inside the 12-process pool is re-timed alone, with the limit scaled by 1.5 x load-per-core up to 5x, before it counts), no panic, the process survives; distinct_nontrivial = distinct statements with a '
                 'definite Ok/Err outcome' % (L, len(TOKENS), len(toks), 3 if quick else 4, len(mistyped()), len(byfam), N, SLOW_MS))
     retime, slowest = [], []
     with mp.Pool(min(12, os.cpu_count() or 4), initializer=sqldiff._init) as pool:
@@ -221,17 +224,20 @@ def run(rep):
         try:
             sqldiff.reg_db(d, DB)
             for fam, sql, ms0 in retime:
+                # the limit alone scales with what else the machine is doing (1-minute load per core), up to 5x: a hang never answers, a loaded machine answers late
+                scale = min(5.0, max(1.0, 1.5 * os.getloadavg()[0] / (os.cpu_count() or 1)))
+                limit_ms = SLOW_MS * scale
                 try:
-                    cls, ms = d.call({'op': 'sql_many', 'db': 'd', 'sqls': [sql]}, timeout=SLOW_MS / 1000.0 + 30)['res'][0]
+                    cls, ms = d.call({'op': 'sql_many', 'db': 'd', 'sqls': [sql]}, timeout=limit_ms / 1000.0 + 5)['res'][0]
                 except (drv.DriverDied, drv.DriverTimeout) as e:
                     cls, ms = 'DIED:%r' % (e,), -1
                     d.close()
                     d = drv.Driver()
                     sqldiff.reg_db(d, DB)
-                bad = ms > SLOW_MS or cls.startswith(('DIED', 'PANIC'))
+                bad = ms > limit_ms or cls.startswith(('DIED', 'PANIC'))
                 known = sql in KNOWN_HUGE
                 rep.merge_counts({'retimed alone': 1, ('known' if known else 'violation') if bad else 'retimed alone: within the limit': 1})
-                ex = {'sql': sql if len(sql) < 400 else sql[:200] + ' ...[%d chars]... ' % len(sql) + sql[-100:], 'outcome': 'took %d ms in the pool, %s alone' % (ms0, cls[:40] if ms < 0 else '%d ms' % ms)}
+                ex = {'sql': sql if len(sql) < 400 else sql[:200] + ' ...[%d chars]... ' % len(sql) + sql[-100:], 'outcome': 'took %d ms in the pool, %s alone' % (ms0, cls[:40] if ms < 0 else '%d ms' % ms) + ' (limit alone %d ms at load %.1f)' % (limit_ms, os.getloadavg()[0])}
                 if bad and known:
                     rep.known_hit('string_function_result_size_unbounded', ex)
                 elif bad:
